@@ -48,6 +48,7 @@ func init() {
 		ruleNoWrite("clone family", cloneFamily, 8, 5),
 		ruleShapeFaults(shapeConfig{label: "orb core", keep: inPkgs("orb."), floor: 42}),
 		ruleMemberLoops(inPkgs("orb."), 17, 0),
+		ruleBoxPredicates(orbBoundPredicates),
 	)
 
 	register("C01",
@@ -132,6 +133,8 @@ func init() {
 		"Structural necessary conditions of 'the quadtree answers as a list would': no certain fault in any public method on a never-populated, one-point, two-level or emptied tree with boundary arguments (k in 0..3, buffers shorter/longer, nil/non-nil filter) - abstract interpretation. Answers after histories, pruning and ordering are NOT decided.",
 		ruleShapeFaults(shapeConfig{label: "quadtree API", keep: func(string) bool { return false }, extra: quadtreeAPI, floor: 9, override: quadtreeParams, post: rulePost("quadtree", quadtreePost)}),
 		ruleRejectBeforeWrite("quadtree.(*Quadtree).Add", "orb.(Bound).Contains"),
+		ruleBoxPredicates(append(append([]boxSpec(nil), quadtreeBoxPredicates...), orbBoundPredicates[1])),
+		ruleQuadtreeTables,
 	)
 
 	register("C12",
